@@ -85,6 +85,10 @@ def target_oracle(ntimes, L, lenDec, trig, cosch, pexit, thr, sn, sw, mask):
     return math.fsum(full) / n, math.fsum(geo) / n, sum(1 for x in full if x != 0), unc / n, np.array(full)
 
 
+def relclose(a, b):
+    return a == b or abs(a - b) <= 1e-12 * max(abs(a), abs(b))
+
+
 def close(a, b, tol):
     return abs(a - b) <= tol + 1e-300
 
@@ -149,6 +153,17 @@ def direct_diffuse(ctx, rng, ncfg, nev):
                     ctx.violation("inputs-modified", "Diffuse mcintegral modified an input array", wit)
             if not mc <= BSHR * geo * (1 + 1e-12) + 1e-300:
                 ctx.violation("bound", f"Diffuse integral {mc!r} exceeds 0.826 x geometric integral {geo!r}", wit)
+        # ---- the same per-event values as half / single precision arrays give the float64 answer
+        for dt in (np.float16, np.float32):
+            pe_, tr_, cc_ = pexit.astype(dt), trig.astype(np.float32).astype(dt), np.clip(cosch.astype(dt), -1, 1)
+            ctx.count("dtype")
+            try:
+                got = g.mcintegral(tr_.copy(), cc_.copy(), pe_.copy(), thr, 1.0, 1.0)[:3]
+                want = g.mcintegral(tr_.astype(np.float64), cc_.astype(np.float64), pe_.astype(np.float64), thr, 1.0, 1.0)[:3]
+                if not (relclose(got[0], want[0]) and relclose(got[1], want[1]) and int(got[2]) == int(want[2])):
+                    ctx.violation("dtype", f"Diffuse altitude {alt} km: mcintegral with {np.dtype(dt).name} trigger / cosine / exit-probability arrays returns (integral {got[0]!r}, geo {got[1]!r}, passing {got[2]}); the same numbers as float64 give ({want[0]!r}, {want[1]!r}, {want[2]})", dict(wit, dtype=np.dtype(dt).name))
+            except Exception as e:
+                ctx.exception("dtype", f"Diffuse mcintegral with {np.dtype(dt).name} arrays raised", e, wit)
         # ---- exactly one surviving trajectory (alone, and among several thrown)
         kept_ = np.asarray(g.event_mask, bool)
         ki, di = np.flatnonzero(kept_), np.flatnonzero(~kept_)
@@ -298,6 +313,17 @@ def direct_target(ctx, rng, ncfg, nev):
         # the two channels are evaluated one after the other on the *same* arrays, as a full run does;
         # the oracle reads pristine copies
         trig0, cosch0, pexit0, lenDec0 = trig.copy(), cosch.copy(), pexit.copy(), lenDec.copy()
+        for dt in (np.float16, np.float32):
+            pe_, tr_, cc_, ld_ = pexit0.astype(dt), trig0.astype(np.float32).astype(dt), np.clip(cosch0.astype(dt), np.nextafter(dt(-1), dt(0)), 1), np.minimum(lenDec0, 6e4).astype(dt)
+            ctx.count("dtype")
+            try:
+                with np.errstate(all="ignore"):
+                    got = g.mcintegral(tr_.copy(), cc_.copy(), pe_.copy(), thr, 1.0, 1.0, lenDec=ld_.copy(), method="Optical")[:3]
+                    want = g.mcintegral(tr_.astype(np.float64), cc_.astype(np.float64), pe_.astype(np.float64), thr, 1.0, 1.0, lenDec=ld_.astype(np.float64), method="Optical")[:3]
+                if not (relclose(got[0], want[0]) and relclose(got[1], want[1]) and int(got[2]) == int(want[2])):
+                    ctx.violation("dtype", f"Target: mcintegral with {np.dtype(dt).name} trigger / cosine / exit-probability / decay-length arrays returns (integral {got[0]!r}, geo {got[1]!r}, passing {got[2]}); the same numbers as float64 give ({want[0]!r}, {want[1]!r}, {want[2]})", dict(wit, dtype=np.dtype(dt).name))
+            except Exception as e:
+                ctx.exception("dtype", f"Target mcintegral with {np.dtype(dt).name} arrays raised", e, wit)
         for method in ("Optical", "Radio"):
             stored = {}
 
@@ -505,7 +531,7 @@ def run(ctx):
     payloads += [{"kind": "direct", "what": "diffuse", "ncfg": ctx.pick(6, 30), "nev": ctx.pick(3000, 6000)} for _ in range(nd)]
     payloads += [{"kind": "direct", "what": "target", "ncfg": ctx.pick(2, 6), "nev": ctx.pick(2500, 6000)} for _ in range(nd)]
     core.run_shards(ctx, "nssmon.checks.c03", "shard", payloads, workers=min(16, len(payloads)))
-    for m in ("single-survivor", "direct-diffuse", "direct-target", "target-column", "threshold-ladder", "history", "rethrow", "permutation", "fullrun-keywords", "fullrun-column"):
+    for m in ("dtype", "single-survivor", "direct-diffuse", "direct-target", "target-column", "threshold-ladder", "history", "rethrow", "permutation", "fullrun-keywords", "fullrun-column"):
         ctx.require(m)
     if ctx.obs.get("target_bright_instants_seen", 0) == 0 or ctx.obs.get("target_dark_instants_seen", 0) == 0:
         ctx.inconclusive_because("the dark-sky mask never took both values on the kept instants")
